@@ -418,3 +418,34 @@ M("c17_validator_shared", ["C17"],
   ("lomond/frame_parser.py", "        self._utf8_validator = Utf8Validator()\n", "        self._utf8_validator = FrameParser._v = getattr(FrameParser, '_v', None) or Utf8Validator()\n"))
 M("c17_session_reused", ["C17"],
   ("lomond/websocket.py", "        self.state.session = session = session_class(self)", "        self._sess = getattr(self, '_sess', None) or session_class(self)\n        self.state.session = session = self._sess"))
+
+# ---- C19 -----------------------------------------------------------------
+M("c19_bigger_proxy_reads", ["C19"],
+  ("lomond/session.py", "            data = sock.recv(1024)\n", "            data = sock.recv(4096)\n"),
+  equivalent=True)
+M("c19_get_sent_with_connect", ["C19"],
+  ("lomond/session.py", "        sock.sendall(proxy_request)\n", "        sock.sendall(proxy_request)\n        if not self.websocket.is_secure:\n            sock.sendall(self.websocket.build_request())\n"))
+M("c19_any_2xx_accepted", ["C19"],
+  ("lomond/proxy.py", "        if response.status_code != 200:", "        if response.status_code is None or not (200 <= response.status_code < 300):"))
+M("c19_any_status_accepted", ["C19"],
+  ("lomond/proxy.py", "        if response.status_code != 200:", "        if response.status_code is None:"))
+M("c19_wrong_scheme_proxy", ["C19"],
+  ("lomond/session.py", "            'https' if self.websocket.is_secure else 'http'\n        )\n        if proxy:", "            'http' if self.websocket.is_secure else 'https'\n        )\n        if proxy:"))
+M("c19_fallback_to_other_scheme", ["C19"],
+  ("lomond/session.py", "        if proxy:\n            sock = self._connect_proxy(proxy)", "        proxy = proxy or self.websocket.proxies.get('http')\n        if proxy:\n            sock = self._connect_proxy(proxy)"))
+M("c19_empty_mapping_uses_env", ["C19"],
+  ("lomond/websocket.py", "        self.proxies = self._detect_proxies() if proxies is None else proxies", "        self.proxies = self._detect_proxies() if not proxies else proxies"))
+M("c19_connect_target_without_port", ["C19"],
+  ("lomond/proxy.py", "        'CONNECT {}:{} HTTP/1.1'.format(host, port).encode('utf-8')", "        ('CONNECT {}:{} HTTP/1.1'.format(host, port) if port not in (80, 443) else 'CONNECT {} HTTP/1.1'.format(host)).encode('utf-8')"))
+M("c19_proxy_default_port_8080", ["C19"],
+  ("lomond/session.py", "            (443 if _proxy_url.scheme == 'https' else 80)\n        )\n        try:", "            (443 if _proxy_url.scheme == 'https' else 8080)\n        )\n        try:"))
+M("c19_direct_fallback_on_proxy_failure", ["C19"],
+  ("lomond/session.py", "        if proxy:\n            sock = self._connect_proxy(proxy)\n            proxy_url = proxy",
+   "        if proxy:\n            try:\n                sock = self._connect_proxy(proxy)\n                proxy_url = proxy\n            except Exception:\n                sock = self._connect_sock(self.websocket.host, self.websocket.port, ssl=self.websocket.is_secure)\n                proxy_url = None\n        if False:\n            pass"))
+M("c19_connected_proxy_not_reported", ["C19"],
+  ("lomond/session.py", "        yield events.Connected(url, proxy=proxy)", "        yield events.Connected(url, proxy=None)"))
+M("c19_first_read_decides", ["C19"],
+  ("lomond/session.py", "        while response is None:\n            data = sock.recv(1024)\n            for response in proxy_parser.feed(data):\n                break",
+   "        data = sock.recv(1024)\n        for response in proxy_parser.feed(data):\n            break"))
+M("c19_wss_not_wrapped_after_tunnel", ["C19"],
+  ("lomond/session.py", "            self._wrap_socket(sock, self.websocket.host)\n            if self.websocket.is_secure else", "            self._wrap_socket(sock, self.websocket.host)\n            if False else"))
